@@ -602,7 +602,47 @@ impl World {
                                     }
                                 }
                             }
-                            report = format!("old_before={} old_unlock={old_unlock} new_unlock={new_unlock} blobs={total} old_opens={opens}", if old_ok_before { "ok" } else { "err" });
+                            // every other file of the folder's storage (file-system backend): anything next to <id>.vault
+                            // and <id>.events whose name carries the folder id is read as an event log and tried with the old key
+                            let (mut sib_files, mut sib_opens) = (0usize, 0usize);
+                            let target = account.backend_target().await.with_account_id(&self.account_id);
+                            if let sos_backend::BackendTarget::FileSystem(paths) = &target {
+                                let vdir = paths.vaults_dir();
+                                let idtxt = fid.to_string();
+                                let names: Vec<std::path::PathBuf> = std::fs::read_dir(&vdir)
+                                    .map(|rd| rd.flatten().map(|e| e.path()).collect())
+                                    .unwrap_or_default();
+                                for p in names {
+                                    let name = p.file_name().map(|n| n.to_string_lossy().to_string()).unwrap_or_default();
+                                    if !name.contains(&idtxt) || name == format!("{idtxt}.vault") || name == format!("{idtxt}.events") {
+                                        continue;
+                                    }
+                                    sib_files += 1;
+                                    // read a copy so that nothing is created next to the account's files
+                                    let copy = self.base.join(format!("sibling-copy-{}.events", self.counter));
+                                    if std::fs::copy(&p, &copy).is_err() { continue; }
+                                    if let Ok(log) = sos_filesystem::FolderEventLog::<sos_backend::Error>::new_folder(
+                                        &copy, self.account_id, sos_core::events::EventLogType::Folder(fid)).await
+                                    {
+                                        use sos_core::events::EventLog;
+                                        let stream = log.event_stream(false).await;
+                                        pin_mut!(stream);
+                                        while let Some(Ok((_, ev))) = stream.next().await {
+                                            match ev {
+                                                WriteEvent::CreateSecret(_, c) | WriteEvent::UpdateSecret(_, c) => {
+                                                    if ap_old.decrypt_secret(&c, None).await.is_ok() { sib_opens += 1; }
+                                                }
+                                                WriteEvent::SetVaultMeta(a) => {
+                                                    if ap_old.decrypt_meta(&a).await.is_ok() { sib_opens += 1; }
+                                                }
+                                                _ => {}
+                                            }
+                                        }
+                                    }
+                                    let _ = std::fs::remove_file(&copy);
+                                }
+                            }
+                            report = format!("old_before={} old_unlock={old_unlock} new_unlock={new_unlock} blobs={total} old_opens={opens} siblings={sib_files} sibling_old_opens={sib_opens}", if old_ok_before { "ok" } else { "err" });
                         }
                         let fname = self.fname(&fid);
                         self.keycheck = Some(format!("{report} folder={fname} newfp={new_fp} changed={}", r.is_ok() as u8));
